@@ -21,3 +21,13 @@ package expr
 //@   modifies b[0:this.EncodedWidth()]
 //@   ensures remain: result0 == b[this.EncodedWidth():] && result1 == x[this.EncodedWidth():] && result2 == y[this.EncodedWidth():]
 //@   ensures state: forall j in 0..this.EncodedWidth() :: b[j] == mergedByte(this, old(arr(x)), off(x), old(arr(y)), off(y), j)
+
+// C16: PERCENTILEOPT asserts that what it wraps is a percentile; callers must have established that.
+//@ func IsPercentile
+//@   pure
+//@   ensures val: result == (isType(e, "*expr.ptile") || isType(e, "*expr.ptileOptimized"))
+
+//@ func PERCENTILEOPT
+//@   requires wrapped_is_ptile: isType(wrapped, "*expr.ptile") || isType(wrapped, "*expr.ptileOptimized")
+//@   modifies *
+//@   nopanic own
